@@ -69,6 +69,11 @@ class Executor:
         '''
         Largely passing through relevant assignments to the pool they belong to.
         '''
+        # every command must name an existing pool; the per-pool filter below
+        # would otherwise drop it silently
+        for cmd in [*suspensions, *assignments]:
+            assert 0 <= cmd.pool_id < self.num_pools, f"no such pool: {cmd.pool_id}"
+
         results: List[ExecutionResult] = []
         for id_ in range(self.num_pools):
             pool_suspensions = [s for s in suspensions if s.pool_id == id_]
